@@ -30,13 +30,13 @@ fn part_c(prop: &str, tier: &str, sink: &Sink, ev: &mut Evidence) {
     // Both tiers additionally run the "exotic" leaf set (components above 2^32, tags whose numeric and
     // textual orders disagree): depth 1 in quick, depth 2 in thorough.
     let runs: Vec<(&str, bool, bool)> = if tier == "thorough" {
-        vec![("thorough", true, false), ("quick", true, true), ("exotic", true, false), ("bits", false, false)]
+        vec![("thorough", true, false), ("quick", true, true), ("exotic", true, false), ("bits-all", false, false)]
     } else {
         vec![(tier, true, false), ("exotic", false, false), ("bits", false, false)]
     };
     let mut per_run = vec![];
     for (leafset, depth2, depth3) in runs {
-        let (e, out) = engine_c::explore(prop, leafset, sink, depth2, triples && leafset != "exotic" && leafset != "bits", depth3);
+        let (e, out) = engine_c::explore(prop, leafset, sink, depth2, triples && leafset != "exotic" && !leafset.starts_with("bits"), depth3);
         let c = &out.counters;
         ev.evaluations += c.pairs + c.new_states + c.triples;
         ev.distinct_nontrivial += c.nontrivial_pairs;
